@@ -16,15 +16,27 @@ pub trait Check {
 }
 
 pub mod c01;
+pub mod c04;
 pub mod c08;
+pub mod c12;
 pub mod c13;
+pub mod c15;
 pub mod c16;
 pub mod c20;
 pub mod common;
 pub mod progspace;
 
 pub fn all() -> Vec<Box<dyn Check>> {
-    vec![Box::new(c01::C01), Box::new(c08::C08), Box::new(c13::C13), Box::new(c16::C16), Box::new(c20::C20)]
+    vec![
+        Box::new(c01::C01),
+        Box::new(c04::C04),
+        Box::new(c08::C08),
+        Box::new(c12::C12),
+        Box::new(c13::C13),
+        Box::new(c15::C15),
+        Box::new(c16::C16),
+        Box::new(c20::C20),
+    ]
 }
 
 pub fn get(id: &str) -> Option<Box<dyn Check>> {
